@@ -64,10 +64,10 @@ V(id='c11-exit-conditional', prop='C11', file='mpmath/ctx_mp.py',
         return False""",
   expect='fire:A-R4:PrecisionManager')
 V(id='c11-setter-rebind', prop='C11', file='mpmath/ctx_mp_python.py',
-  old="""    def _set_prec(ctx, n):
-        ctx._prec = ctx._prec_rounding[0] = max(1, int(n))""",
-  new="""    def _set_prec(ctx, n):
-        ctx._prec = max(1, int(n))
+  old="""        prec, dps = max(1, int(n)), prec_to_dps(n)
+        ctx._prec = ctx._prec_rounding[0] = prec""",
+  new="""        prec, dps = max(1, int(n)), prec_to_dps(n)
+        ctx._prec = prec
         ctx._prec_rounding = [ctx._prec, ctx._prec_rounding[1]]""",
   expect='fire:A-R6:_set_prec')
 V(id='c11-dps-restore', prop='C11', file='mpmath/calculus/inverselaplace.py',
@@ -190,8 +190,8 @@ V(id='c11-setdps-early-out', prop='C11', file='mpmath/ctx_mp_python.py',
   new="    def _set_dps(ctx, n):\n        if n == ctx._dps:\n            return\n",
   expect='fire:A-R6:_set_dps')
 V(id='c11-setprec-conditional-store', prop='C11', file='mpmath/ctx_iv.py',
-  old="    def _set_prec(ctx, n):\n        ctx._prec[0] = max(1, int(n))\n        ctx._dps = prec_to_dps(n)",
-  new="    def _set_prec(ctx, n):\n        ctx._prec[0] = max(1, int(n))\n        if n > 3:\n            ctx._dps = prec_to_dps(n)",
+  old="        prec, dps = max(1, int(n)), prec_to_dps(n)\n        ctx._prec[0] = prec\n        ctx._dps = dps",
+  new="        prec, dps = max(1, int(n)), prec_to_dps(n)\n        ctx._prec[0] = prec\n        if n > 3:\n            ctx._dps = dps",
   expect='fire:A-R6:_set_prec')
 
 # ---------------------------------------------------------------- C33 -------
@@ -1616,7 +1616,7 @@ V(id='c11-manager-single-slot', prop='C11', file='mpmath/ctx_mp.py',
 V(id='c11-manager-stack-shared', prop='C11', file='mpmath/ctx_mp.py',
   old="        self.origp = []\n", new="", expect='fire:A-R4:PrecisionManager')
 V(id='c11-manager-exit-peeks', prop='C11', file='mpmath/ctx_mp.py',
-  old="        self.ctx.prec = self.origp.pop()", new="        self.ctx.prec = self.origp[-1]",
+  old="        self.ctx.prec = self.origp.pop()\n        return False", new="        self.ctx.prec = self.origp[-1]\n        return False",
   expect='fire:A-R4:PrecisionManager')
 
 # ---- C17 K-R5 / K-R6 (fixes 38bfe48, c311ac5) ----
@@ -2379,3 +2379,14 @@ V(id='c29-polyroots-reals-last', prop='C29', file='mpmath/calculus/polynomials.p
 V(id='c24-theta3a-tolerance-from-vanishing-term', prop='C24', file='mpmath/functions/theta.py',
   old="    s = term = n**nd * a\n    if n != 0:\n        eps1 = ctx.eps*abs(term)\n    else:\n        eps1 = ctx.eps*abs(a)\n",
   new="    s = term = n**nd * a\n    eps1 = ctx.eps*abs(term)\n", expect='fire:T-R13:_djacobi_theta3a')
+
+# ---- C11 (fixes af6cc8e, 8507fea) ----
+V(id='c11-set-prec-store-before-conversion', prop='C11', file='mpmath/ctx_mp_python.py',
+  old="        prec, dps = max(1, int(n)), prec_to_dps(n)\n        ctx._prec = ctx._prec_rounding[0] = prec\n        ctx._dps = dps\n",
+  new="        ctx._prec = ctx._prec_rounding[0] = max(1, int(n))\n        ctx._dps = prec_to_dps(n)\n", expect='fire:A-R6:_set_prec')
+V(id='c11-rule-object-step-unprotected', prop='C11', file='mpmath/calculus/inverselaplace.py',
+  old="    @_precision_safe\n    def calc_time_domain_solution(self,fp,t,manual_prec=False):\n        r\"\"\"The fixed Talbot",
+  new="    def calc_time_domain_solution(self,fp,t,manual_prec=False):\n        r\"\"\"The fixed Talbot", expect='fire:A-R8')
+V(id='c11-enter-failure-keeps-stack-entry', prop='C11', file='mpmath/ctx_mp.py',
+  old="        except:\n            # __exit__ is not called when __enter__ fails\n            self.ctx.prec = self.origp.pop()\n            raise\n",
+  new="        except:\n            raise\n", expect='fire:A-R4')
